@@ -198,11 +198,39 @@ func (in *inst) calls(root ast.Node) {
 			default:
 				return true
 			}
+			recv := f.X
 			if len(sel.Index()) > 1 {
-				in.uninstrumented(c.Pos(), "promoted method "+fn.Name()+" through embedding")
+				// a method promoted through embedded fields: spell the path out (x.Lock() -> x.Mutex.Lock())
+				t := in.info.TypeOf(f.X)
+				ok := t != nil
+				for _, ix := range sel.Index()[:len(sel.Index())-1] {
+					if !ok {
+						break
+					}
+					if p, isPtr := t.Underlying().(*types.Pointer); isPtr {
+						t = p.Elem()
+					}
+					st, isStruct := t.Underlying().(*types.Struct)
+					if !isStruct || ix >= st.NumFields() {
+						ok = false
+						break
+					}
+					fld := st.Field(ix)
+					recv = &ast.SelectorExpr{X: recv, Sel: ast.NewIdent(fld.Name())}
+					t = fld.Type()
+				}
+				if !ok || !pure(f.X) {
+					in.uninstrumented(c.Pos(), "promoted method "+fn.Name()+" through embedding")
+					return true
+				}
+				if _, isPtr := t.Underlying().(*types.Pointer); !isPtr {
+					recv = addr(recv)
+				}
+				c.Fun = vrtSel(to)
+				c.Args = append([]ast.Expr{recv}, c.Args...)
+				in.counts["sync:"+to]++
 				return true
 			}
-			recv := f.X
 			if !in.isPtr(recv) {
 				recv = addr(recv)
 			}
